@@ -162,6 +162,26 @@ func C04GenLimb(t *rapid.T, label string, w uint, max uint64, isLimb0 bool) uint
 		}
 	case 12: // uniform canonical
 		v = rapid.Uint64().Draw(t, label+"_u") & ((one << w) - 1)
+	case 13:
+		// limb whose product with a small constant the code multiplies by
+		// (19, 38, 121666, ...) has a LOW machine word just below 2^64:
+		// v = floor(k*2^64/c) - j, so lo64(v*c) = 2^64 - r with r < (j+1)*c.  A
+		// carry added to that low word then wraps - the place where a carry
+		// into the high word is needed (probability ~2^-47 for uniform limbs).
+		if w < 40 {
+			v = c04u64below(t, label+"_u", max)
+			break
+		}
+		c := rapid.SampledFrom([]uint64{121666, 121666, 121666, 19, 38, 2 * 121666, 121665}).Draw(t, label+"_c")
+		hi := new(big.Int).Lsh(big.NewInt(1), 64)
+		kmax := new(big.Int).Div(new(big.Int).Mul(new(big.Int).SetUint64(max), new(big.Int).SetUint64(c)), hi).Uint64()
+		if kmax == 0 {
+			v = max
+			break
+		}
+		k := rapid.Uint64Range(1, kmax).Draw(t, label+"_k")
+		q := new(big.Int).Div(new(big.Int).Mul(new(big.Int).SetUint64(k), hi), new(big.Int).SetUint64(c))
+		v = q.Uint64() - uint64(rapid.IntRange(0, 3).Draw(t, label+"_j"))
 	default: // uniform in the whole headroom
 		v = c04u64below(t, label+"_u", max)
 	}
